@@ -110,9 +110,9 @@ func init() {
 			// the one legitimate trace: the fee payer's eFUND unlock when the tx carries a top-level
 			// WRKChain/BEACON message and passed the pre-execution stage (that delta is C05's subject)
 			legit := map[string]bool{}
-			if bt.AntePassed && bt.Tx.Wrap == WrapTop {
-				for _, o := range bt.Ops {
-					if o.IsFeeOp {
+			if bt.AntePassed && bt.HasTopLevelFeeOp() {
+				for range bt.Ops[:1] {
+					{
 						p := bt.Payer.Bytes
 						for _, ak := range [][]byte{enttypes.LockedUndAddressStoreKey(p), enttypes.SpentEFUNDAddressStoreKey(p), enttypes.TotalLockedUndKey, enttypes.TotalSpentEFUNDKey} {
 							legit[fmt.Sprintf("enterprise/%x", ak)] = true
